@@ -65,7 +65,9 @@ func buildPool() []poolVal {
 	p = append(p, poolVal{"bool:true", "bool", constVal(starlark.True)})
 	p = append(p, poolVal{"bool:false", "bool", constVal(starlark.False)})
 
-	addF := func(label string, f float64) { p = append(p, poolVal{"float:" + label, "float", constVal(starlark.Float(f))}) }
+	addF := func(label string, f float64) {
+		p = append(p, poolVal{"float:" + label, "float", constVal(starlark.Float(f))})
+	}
 	addF("0.0", 0)
 	addF("-0.0", math.Copysign(0, -1))
 	addF("1.0", 1)
